@@ -35,14 +35,15 @@ const (
 	FaultRPCError           // JSON-RPC error object
 	FaultTruncated          // hex payload cut in half
 	FaultGarbage            // body is not JSON
+	FaultSubstituted        // raw-data answers with ANOTHER entry of the same chain: well-formed, wrong hash
 	nFaultKinds
 )
 
 func (k FaultKind) String() string {
-	return [...]string{"none", "transport", "http500", "rpcerror", "truncated", "garbage"}[k]
+	return [...]string{"none", "transport", "http500", "rpcerror", "truncated", "garbage", "substituted"}[k]
 }
 
-var AllFaultKinds = []FaultKind{FaultTransport, FaultHTTP500, FaultRPCError, FaultTruncated, FaultGarbage}
+var AllFaultKinds = []FaultKind{FaultTransport, FaultHTTP500, FaultRPCError, FaultTruncated, FaultGarbage, FaultSubstituted}
 
 // Node is the http.RoundTripper.
 type Node struct {
@@ -205,11 +206,48 @@ func (n *Node) RoundTrip(req *http.Request) (*http.Response, error) {
 		return httpResp(req, 200, []byte("<html>bad gateway</html>")), nil
 	}
 
+	if fault == FaultSubstituted {
+		if sub, ok := n.substitute(r); ok {
+			return httpResp(req, 200, []byte(fmt.Sprintf(`{"jsonrpc":"2.0","id":%s,"result":{"data":"%s"}}`, rq.ID, hex.EncodeToString(sub)))), nil
+		}
+		fault = FaultTruncated // nothing to substitute with: degrade to a truncated answer
+	}
 	result, rerr := n.answer(r, fault == FaultTruncated)
 	if rerr != nil {
 		return httpResp(req, 200, []byte(fmt.Sprintf(`{"jsonrpc":"2.0","id":%s,"error":{"code":-32008,"message":"Block not found","data":%q}}`, rq.ID, rerr.Error()))), nil
 	}
 	return httpResp(req, 200, []byte(fmt.Sprintf(`{"jsonrpc":"2.0","id":%s,"result":%s}`, rq.ID, result))), nil
+}
+
+// substitute returns the raw bytes of another entry of the same chain (the one with the smallest hash).
+func (n *Node) substitute(r Req) ([]byte, bool) {
+	if r.Method != "raw-data" {
+		return nil, false
+	}
+	b, err := hex.DecodeString(r.Key)
+	if err != nil || len(b) != 32 {
+		return nil, false
+	}
+	var h factom.Bytes32
+	copy(h[:], b)
+	c := n.Chain
+	c.mu.Lock()
+	defer c.mu.Unlock()
+	own := c.raw[h]
+	if len(own) < 33 || own[0] != 0 {
+		return nil, false // not an entry (entries start with version byte 0 followed by the chain id)
+	}
+	var best factom.Bytes32
+	var bestRaw []byte
+	for k, raw := range c.raw {
+		if k == h || len(raw) < 33 || raw[0] != 0 || !bytes.Equal(raw[1:33], own[1:33]) {
+			continue
+		}
+		if bestRaw == nil || bytes.Compare(k[:], best[:]) < 0 {
+			best, bestRaw = k, raw
+		}
+	}
+	return bestRaw, bestRaw != nil
 }
 
 func hx(b []byte, trunc bool) string {
